@@ -32,6 +32,19 @@ def dopt (d : Dir) (a : Attempt) : Dir :=
   | some s => dclaim d a.1 a.2.1 s
   | none => d
 
+/-- a setter pseudo-field is never read: the attempt carries no strategy -/
+def gd (rd : Field) (o : Option Strat) : Option Strat := if rd.isSet then none else o
+
+theorem gd_orElse (rd : Field) (o1 o2 : Option Strat) :
+    (gd rd o1).orElse (fun _ => gd rd o2) = gd rd (o1.orElse (fun _ => o2)) := by
+  unfold gd; cases rd.isSet <;> simp
+
+theorem gd_some (rd : Field) (o : Option Strat) (s : Strat) : gd rd o = some s ↔ rd.isSet = false ∧ o = some s := by
+  unfold gd; cases rd.isSet <;> simp
+
+theorem gd_plain {rd : Field} (h : rd.isSet = false) (o : Option Strat) : gd rd o = o := by
+  unfold gd; simp [h]
+
 def St.toD (st : St) : Dir := ⟨st.wD, st.toC⟩
 def St.fromD (st : St) : Dir := ⟨st.wS, st.fromC⟩
 
@@ -99,17 +112,43 @@ theorem dopt_blocked' (d : Dir) (rd wr : Field) (o : Option Strat) (h : blocked 
   | none => rfl
   | some s => exact dclaim_pos h rd s
 
+theorem toD_funcTo (f1 f2 : Field) (k : Nat) (fn : Fn) (st : St) :
+    (funcTo f1 f2 k fn st).toD =
+      dopt st.toD (f1, f2, gd f1 (if fn.param == f1.ty && fn.result == f2.ty then some (.func k) else none)) := by
+  unfold funcTo gd
+  cases f1.isSet
+  · by_cases hc : (fn.param == f1.ty && fn.result == f2.ty) = true
+    · simp [hc, dopt]
+    · simp [hc, dopt]
+  · simp [dopt]
+
+theorem fromD_funcTo (f1 f2 : Field) (k : Nat) (fn : Fn) (st : St) : (funcTo f1 f2 k fn st).fromD = st.fromD := by
+  unfold funcTo; split <;> simp
+
+theorem fromD_funcFrom (f1 f2 : Field) (k : Nat) (fn : Fn) (st : St) :
+    (funcFrom f1 f2 k fn st).fromD =
+      dopt st.fromD (f2, f1, gd f2 (if fn.param == f2.ty && fn.result == f1.ty then some (.func k) else none)) := by
+  unfold funcFrom gd
+  cases f2.isSet
+  · by_cases hc : (fn.param == f2.ty && fn.result == f1.ty) = true
+    · simp [hc, dopt]
+    · simp [hc, dopt]
+  · simp [dopt]
+
+theorem toD_funcFrom (f1 f2 : Field) (k : Nat) (fn : Fn) (st : St) : (funcFrom f1 f2 k fn st).toD = st.toD := by
+  unfold funcFrom; split <;> simp
+
 theorem toD_funcStep (f1 f2 : Field) (kf : Nat × Fn) (st : St) :
     (funcStep f1 f2 kf st).toD =
-      dopt st.toD (f1, f2, if kf.2.param == f1.ty && kf.2.result == f2.ty then some (.func kf.1) else none) := by
-  unfold funcStep funcFrom funcTo
-  split <;> split <;> simp_all [dopt]
+      dopt st.toD (f1, f2, gd f1 (if kf.2.param == f1.ty && kf.2.result == f2.ty then some (.func kf.1) else none)) := by
+  unfold funcStep
+  rw [toD_funcFrom, toD_funcTo]
 
 theorem fromD_funcStep (f1 f2 : Field) (kf : Nat × Fn) (st : St) :
     (funcStep f1 f2 kf st).fromD =
-      dopt st.fromD (f2, f1, if kf.2.param == f2.ty && kf.2.result == f1.ty then some (.func kf.1) else none) := by
-  unfold funcStep funcFrom funcTo
-  split <;> split <;> simp_all [dopt]
+      dopt st.fromD (f2, f1, gd f2 (if kf.2.param == f2.ty && kf.2.result == f1.ty then some (.func kf.1) else none)) := by
+  unfold funcStep
+  rw [fromD_funcFrom, fromD_funcTo]
 
 theorem firstFn_cons (kf : Nat × Fn) (l : List (Nat × Fn)) (a b : Ty) :
     firstFn (kf :: l) a b = if kf.2.param == a && kf.2.result == b then some kf.1 else firstFn l a b := by
@@ -119,16 +158,16 @@ theorem firstFn_cons (kf : Nat × Fn) (l : List (Nat × Fn)) (a b : Ty) :
 
 theorem toD_funcStep_ne (f1 f2 : Field) (kf : Nat × Fn) (st : St)
     (hne : ¬ (kf.2.param == f1.ty && kf.2.result == f2.ty) = true) : (funcStep f1 f2 kf st).toD = st.toD := by
-  rw [toD_funcStep, if_neg hne]; rfl
+  rw [toD_funcStep, if_neg hne]; unfold gd; split <;> rfl
 
 theorem fromD_funcStep_ne (f1 f2 : Field) (kf : Nat × Fn) (st : St)
     (hne : ¬ (kf.2.param == f2.ty && kf.2.result == f1.ty) = true) : (funcStep f1 f2 kf st).fromD = st.fromD := by
-  rw [fromD_funcStep, if_neg hne]; rfl
+  rw [fromD_funcStep, if_neg hne]; unfold gd; split <;> rfl
 
 theorem toD_funcLoop (f1 f2 : Field) (l : List (Nat × Fn)) (st : St) (h : Coh f1 f2 st) :
-    (funcLoop f1 f2 l st).toD = dopt st.toD (f1, f2, (firstFn l f1.ty f2.ty).map .func) := by
+    (funcLoop f1 f2 l st).toD = dopt st.toD (f1, f2, gd f1 ((firstFn l f1.ty f2.ty).map .func)) := by
   induction l generalizing st with
-  | nil => rfl
+  | nil => unfold gd; split <;> rfl
   | cons kf rest ih =>
     have hc := coh_funcStep h kf
     rw [firstFn_cons]
@@ -145,13 +184,13 @@ theorem toD_funcLoop (f1 f2 : Field) (l : List (Nat × Fn)) (st : St) (h : Coh f
         rw [e, dopt_blocked' _ _ _ _ hw]
     · rw [ih _ hc]
       by_cases hm : (kf.2.param == f1.ty && kf.2.result == f2.ty) = true
-      · rw [toD_funcStep, if_pos hm, if_pos hm, dopt_dopt]; rfl
+      · rw [toD_funcStep, if_pos hm, if_pos hm, dopt_dopt, gd_orElse]; rfl
       · rw [toD_funcStep_ne _ _ _ _ hm, if_neg hm]
 
 theorem fromD_funcLoop (f1 f2 : Field) (l : List (Nat × Fn)) (st : St) (h : Coh f1 f2 st) :
-    (funcLoop f1 f2 l st).fromD = dopt st.fromD (f2, f1, (firstFn l f2.ty f1.ty).map .func) := by
+    (funcLoop f1 f2 l st).fromD = dopt st.fromD (f2, f1, gd f2 ((firstFn l f2.ty f1.ty).map .func)) := by
   induction l generalizing st with
-  | nil => rfl
+  | nil => unfold gd; split <;> rfl
   | cons kf rest ih =>
     have hc := coh_funcStep h kf
     rw [firstFn_cons]
@@ -168,25 +207,39 @@ theorem fromD_funcLoop (f1 f2 : Field) (l : List (Nat × Fn)) (st : St) (h : Coh
         rw [e, dopt_blocked' _ _ _ _ hw]
     · rw [ih _ hc]
       by_cases hm : (kf.2.param == f2.ty && kf.2.result == f1.ty) = true
-      · rw [fromD_funcStep, if_pos hm, if_pos hm, dopt_dopt]; rfl
+      · rw [fromD_funcStep, if_pos hm, if_pos hm, dopt_dopt, gd_orElse]; rfl
       · rw [fromD_funcStep_ne _ _ _ _ hm, if_neg hm]
 
 
 /-! ## one pair, both passes -/
 
 theorem toD_subMap (f1 f2 : Field) (t1 t2 : Ty) (sl : Bool) (st : St) :
-    (subMap f1 f2 t1 t2 sl st).toD = dopt st.toD (f1, f2,
-      if t1.strip.2.isNamedIn .src && t2.strip.2.isNamedIn .dest then
-        some (if sl then .each t1.strip.1 t2.strip.1 else .sub t1.strip.1 t2.strip.1) else none) := by
+    (subMap f1 f2 t1 t2 sl st).toD = dopt st.toD (f1, f2, gd f1
+      (if t1.strip.2.isNamedIn .src && t2.strip.2.isNamedIn .dest then
+        some (if sl then .each t1.strip.1 t2.strip.1 else .sub t1.strip.1 t2.strip.1) else none)) := by
+  have e1 : ∀ st' : St, (subFrom f1 f2 t1 t2 sl st').toD = st'.toD := by
+    intro st'; unfold subFrom; split <;> simp
   unfold subMap
-  split <;> simp [dopt]
+  rw [e1]
+  unfold subTo gd
+  cases f1.isSet
+  · by_cases hc : (t1.strip.2.isNamedIn .src && t2.strip.2.isNamedIn .dest) = true
+    · simp [hc, dopt]
+    · simp [hc, dopt]
+  · simp [dopt]
 
 theorem fromD_subMap (f1 f2 : Field) (t1 t2 : Ty) (sl : Bool) (st : St) :
-    (subMap f1 f2 t1 t2 sl st).fromD = dopt st.fromD (f2, f1,
-      if t1.strip.2.isNamedIn .src && t2.strip.2.isNamedIn .dest then
-        some (if sl then .each t2.strip.1 t1.strip.1 else .sub t2.strip.1 t1.strip.1) else none) := by
-  unfold subMap
-  split <;> simp [dopt]
+    (subMap f1 f2 t1 t2 sl st).fromD = dopt st.fromD (f2, f1, gd f2
+      (if t1.strip.2.isNamedIn .src && t2.strip.2.isNamedIn .dest then
+        some (if sl then .each t2.strip.1 t1.strip.1 else .sub t2.strip.1 t1.strip.1) else none)) := by
+  have e1 : (subTo f1 f2 t1 t2 sl st).fromD = st.fromD := by
+    unfold subTo; split <;> simp
+  unfold subMap subFrom gd
+  cases f2.isSet
+  · by_cases hc : (t1.strip.2.isNamedIn .src && t2.strip.2.isNamedIn .dest) = true
+    · simp [hc, dopt, e1]
+    · simp [hc, dopt, e1]
+  · simp [dopt, e1]
 
 /-- the slice step as an optional strategy -/
 def eachOpt (rdPkg wrPkg : Pkg) (a b : Ty) : Option Strat :=
@@ -196,7 +249,7 @@ def eachOpt (rdPkg wrPkg : Pkg) (a b : Ty) : Option Strat :=
   | _, _ => none
 
 theorem toD_subListMap (f1 f2 : Field) (st : St) :
-    (subListMap f1 f2 st).toD = dopt st.toD (f1, f2, eachOpt .src .dest f1.ty f2.ty) := by
+    (subListMap f1 f2 st).toD = dopt st.toD (f1, f2, gd f1 (eachOpt .src .dest f1.ty f2.ty)) := by
   unfold subListMap eachOpt
   split
   · rename_i e1 e2 h1 h2
@@ -204,10 +257,10 @@ theorem toD_subListMap (f1 f2 : Field) (st : St) :
   · rename_i hne
     split
     · rename_i e1 e2 h1 h2; exact absurd h2 (hne e1 e2 h1)
-    · rfl
+    · unfold gd; split <;> rfl
 
 theorem fromD_subListMap (f1 f2 : Field) (st : St) :
-    (subListMap f1 f2 st).fromD = dopt st.fromD (f2, f1, eachOpt .dest .src f2.ty f1.ty) := by
+    (subListMap f1 f2 st).fromD = dopt st.fromD (f2, f1, gd f2 (eachOpt .dest .src f2.ty f1.ty)) := by
   unfold subListMap eachOpt
   split
   · rename_i e1 e2 h1 h2
@@ -216,7 +269,7 @@ theorem fromD_subListMap (f1 f2 : Field) (st : St) :
   · rename_i hne
     split
     · rename_i e2 e1 h2 h1; exact absurd h2 (hne e1 e2 h1)
-    · rfl
+    · unfold gd; split <;> rfl
 
 theorem misStrat_eq (fns : List (Nat × Fn)) (rdPkg wrPkg : Pkg) (a b : Ty) :
     misStrat fns rdPkg wrPkg a b =
@@ -234,47 +287,73 @@ theorem misStrat_eq (fns : List (Nat × Fn)) (rdPkg wrPkg : Pkg) (a b : Ty) :
       split <;> simp_all
 
 theorem toD_mismatchStep (fl : List Fn) (st : St) (p : Field × Field) (h : Coh p.1 p.2 st) :
-    (mismatchStep fl st p).toD = dopt st.toD (p.1, p.2, misStrat (indexed fl) .src .dest p.1.ty p.2.ty) := by
+    (mismatchStep fl st p).toD = dopt st.toD (p.1, p.2, gd p.1 (misStrat (indexed fl) .src .dest p.1.ty p.2.ty)) := by
   unfold mismatchStep
-  rw [toD_subListMap, toD_subMap, toD_funcLoop _ _ _ _ h, dopt_dopt, dopt_dopt, misStrat_eq]
+  rw [toD_subListMap, toD_subMap, toD_funcLoop _ _ _ _ h, dopt_dopt, dopt_dopt, gd_orElse, gd_orElse, misStrat_eq]
   simp [Option.or_assoc]
 
 theorem fromD_mismatchStep (fl : List Fn) (st : St) (p : Field × Field) (h : Coh p.1 p.2 st) :
-    (mismatchStep fl st p).fromD = dopt st.fromD (p.2, p.1, misStrat (indexed fl) .dest .src p.2.ty p.1.ty) := by
+    (mismatchStep fl st p).fromD = dopt st.fromD (p.2, p.1, gd p.2 (misStrat (indexed fl) .dest .src p.2.ty p.1.ty)) := by
   unfold mismatchStep
-  rw [fromD_subListMap, fromD_subMap, fromD_funcLoop _ _ _ _ h, dopt_dopt, dopt_dopt, misStrat_eq]
+  rw [fromD_subListMap, fromD_subMap, fromD_funcLoop _ _ _ _ h, dopt_dopt, dopt_dopt, gd_orElse, gd_orElse, misStrat_eq]
   simp [Option.or_assoc, and_comm]
-
-theorem toD_matchStep (conv : List (Ty × Ty)) (st : St) (p : Field × Field) :
-    (matchStep conv st p).toD = dopt st.toD (p.1, p.2, matStrat conv p.1.ty p.2.ty) := by
-  have e : (matchType conv p.1.ty p.2.ty).1 = (p.1.ty == p.2.ty) := rfl
-  unfold matchStep matchFrom matchTo matStrat
-  rw [e]
-  by_cases h1 : (p.1.ty == p.2.ty) = true
-  · simp [h1, dopt]
-  · by_cases h2 : (matchType conv p.1.ty p.2.ty).2 = true
-    · simp [h1, h2, dopt]
-      split <;> simp
-    · simp [h1, h2, dopt]
-      split <;> simp
 
 theorem beq_comm_ty (a b : Ty) : (a == b) = (b == a) := by
   rw [Bool.eq_iff_iff]; simp only [beq_iff_eq]; exact eq_comm
 
-theorem fromD_matchStep (conv : List (Ty × Ty)) (st : St) (p : Field × Field) :
-    (matchStep conv st p).fromD = dopt st.fromD (p.2, p.1, matStrat conv p.2.ty p.1.ty) := by
-  have e : (matchType conv p.1.ty p.2.ty).1 = (p.2.ty == p.1.ty) := by
-    show (p.1.ty == p.2.ty) = _
-    exact beq_comm_ty _ _
-  unfold matchStep matchFrom matchTo matStrat
+theorem toD_matchTo (conv : List (Ty × Ty)) (f1 f2 : Field) (st : St) :
+    (matchTo conv f1 f2 st).toD = dopt st.toD (f1, f2, gd f1 (matStrat conv f1.ty f2.ty)) := by
+  have e : (matchType conv f1.ty f2.ty).1 = (f1.ty == f2.ty) := rfl
+  unfold matchTo matStrat gd
   rw [e]
-  by_cases h1 : (p.2.ty == p.1.ty) = true
-  · simp [h1, dopt]
-  · by_cases h2 : (matchType conv p.2.ty p.1.ty).2 = true
-    · simp [h1, h2, dopt]
-      split <;> simp
-    · simp [h1, h2, dopt]
-      split <;> simp
+  cases f1.isSet
+  · by_cases h1 : (f1.ty == f2.ty) = true
+    · simp [h1, dopt]
+    · by_cases h2 : (matchType conv f1.ty f2.ty).2 = true
+      · simp [h1, h2, dopt]
+      · simp [h1, h2, dopt]
+  · simp [dopt]
+
+theorem fromD_matchTo (conv : List (Ty × Ty)) (f1 f2 : Field) (st : St) : (matchTo conv f1 f2 st).fromD = st.fromD := by
+  unfold matchTo
+  split
+  · rfl
+  · split
+    · simp
+    · split <;> simp
+
+theorem fromD_matchFrom (conv : List (Ty × Ty)) (f1 f2 : Field) (st : St) :
+    (matchFrom conv f1 f2 st).fromD = dopt st.fromD (f2, f1, gd f2 (matStrat conv f2.ty f1.ty)) := by
+  have e : (matchType conv f1.ty f2.ty).1 = (f2.ty == f1.ty) := by
+    show (f1.ty == f2.ty) = _
+    exact beq_comm_ty _ _
+  unfold matchFrom matStrat gd
+  rw [e]
+  cases f2.isSet
+  · by_cases h1 : (f2.ty == f1.ty) = true
+    · simp [h1, dopt]
+    · by_cases h2 : (matchType conv f2.ty f1.ty).2 = true
+      · simp [h1, h2, dopt]
+      · simp [h1, h2, dopt]
+  · simp [dopt]
+
+theorem toD_matchFrom (conv : List (Ty × Ty)) (f1 f2 : Field) (st : St) : (matchFrom conv f1 f2 st).toD = st.toD := by
+  unfold matchFrom
+  split
+  · rfl
+  · split
+    · simp
+    · split <;> simp
+
+theorem toD_matchStep (conv : List (Ty × Ty)) (st : St) (p : Field × Field) :
+    (matchStep conv st p).toD = dopt st.toD (p.1, p.2, gd p.1 (matStrat conv p.1.ty p.2.ty)) := by
+  unfold matchStep
+  rw [toD_matchFrom, toD_matchTo]
+
+theorem fromD_matchStep (conv : List (Ty × Ty)) (st : St) (p : Field × Field) :
+    (matchStep conv st p).fromD = dopt st.fromD (p.2, p.1, gd p.2 (matStrat conv p.2.ty p.1.ty)) := by
+  unfold matchStep
+  rw [fromD_matchFrom, fromD_matchTo]
 
 
 /-! ## the whole loop as a fold of attempts -/
@@ -326,10 +405,10 @@ theorem coh_of_inv {st : St} (h : Inv conv fns ps w0D w0S st) (hu : UniqueClaima
       have : p.1.name ∈ st.wS := hw ▸ hin.1
       simp [blocked, St.fromD, this]
 
-def misToA (fl : List Fn) (p : Field × Field) : Attempt := (p.1, p.2, misStrat (indexed fl) .src .dest p.1.ty p.2.ty)
-def misFromA (fl : List Fn) (p : Field × Field) : Attempt := (p.2, p.1, misStrat (indexed fl) .dest .src p.2.ty p.1.ty)
-def matToA (conv : List (Ty × Ty)) (p : Field × Field) : Attempt := (p.1, p.2, matStrat conv p.1.ty p.2.ty)
-def matFromA (conv : List (Ty × Ty)) (p : Field × Field) : Attempt := (p.2, p.1, matStrat conv p.2.ty p.1.ty)
+def misToA (fl : List Fn) (p : Field × Field) : Attempt := (p.1, p.2, gd p.1 (misStrat (indexed fl) .src .dest p.1.ty p.2.ty))
+def misFromA (fl : List Fn) (p : Field × Field) : Attempt := (p.2, p.1, gd p.2 (misStrat (indexed fl) .dest .src p.2.ty p.1.ty))
+def matToA (conv : List (Ty × Ty)) (p : Field × Field) : Attempt := (p.1, p.2, gd p.1 (matStrat conv p.1.ty p.2.ty))
+def matFromA (conv : List (Ty × Ty)) (p : Field × Field) : Attempt := (p.2, p.1, gd p.2 (matStrat conv p.2.ty p.1.ty))
 
 theorem fold_mismatch (fl : List Fn) (hu : UniqueClaimable ps) (l : List (Field × Field)) (hl : ∀ p ∈ l, p ∈ ps) {st : St}
     (h : Inv conv (indexed fl) ps w0D w0S st) :
@@ -546,7 +625,7 @@ theorem toC_char (conv : List (Ty × Ty)) (fl : List Fn) (ps : List (Field × Fi
     (w0D w0S : List String) (c : Claim) :
     c ∈ (planFields conv fl ps { wD := w0D, wS := w0S }).toC ↔
       ∃ p ∈ ps, p.2.name ∉ w0D ∧ p.2.isGet = false ∧
-        ∃ s, pairStrat conv (indexed fl) .src .dest p.1.ty p.2.ty = some s ∧ c = ⟨p.1, p.2, s⟩ := by
+        ∃ s, gd p.1 (pairStrat conv (indexed fl) .src .dest p.1.ty p.2.ty) = some s ∧ c = ⟨p.1, p.2, s⟩ := by
   have h0 := inv_init conv (indexed fl) ps w0D w0S
   have e : (planFields conv fl ps { wD := w0D, wS := w0S }).toC =
       ((ps.map (matToA conv)).foldl dopt ((ps.map (misToA fl)).foldl dopt ⟨w0D, []⟩)).cs := by
@@ -555,14 +634,17 @@ theorem toC_char (conv : List (Ty × Ty)) (fl : List Fn) (ps : List (Field × Fi
     rw [(fold_mismatch fl (claimable_of_unique hu) ps (fun _ h => h) h0).1] at this
     exact congrArg Dir.cs this
   rw [e]
-  exact two_phase ps (·.1) (·.2) _ _ hu.2 w0D c
+  have := two_phase ps (·.1) (·.2) (fun p => gd p.1 (misStrat (indexed fl) .src .dest p.1.ty p.2.ty))
+    (fun p => gd p.1 (matStrat conv p.1.ty p.2.ty)) hu.2 w0D c
+  simp only [gd_orElse] at this
+  exact this
 
 /-- the From-direction claim log -/
 theorem fromC_char (conv : List (Ty × Ty)) (fl : List Fn) (ps : List (Field × Field)) (hu : Unique ps)
     (w0D w0S : List String) (c : Claim) :
     c ∈ (planFields conv fl ps { wD := w0D, wS := w0S }).fromC ↔
       ∃ p ∈ ps, p.1.name ∉ w0S ∧ p.1.isGet = false ∧
-        ∃ s, pairStrat conv (indexed fl) .dest .src p.2.ty p.1.ty = some s ∧ c = ⟨p.2, p.1, s⟩ := by
+        ∃ s, gd p.2 (pairStrat conv (indexed fl) .dest .src p.2.ty p.1.ty) = some s ∧ c = ⟨p.2, p.1, s⟩ := by
   have h0 := inv_init conv (indexed fl) ps w0D w0S
   have e : (planFields conv fl ps { wD := w0D, wS := w0S }).fromC =
       ((ps.map (matFromA conv)).foldl dopt ((ps.map (misFromA fl)).foldl dopt ⟨w0S, []⟩)).cs := by
@@ -571,7 +653,10 @@ theorem fromC_char (conv : List (Ty × Ty)) (fl : List Fn) (ps : List (Field × 
     rw [(fold_mismatch fl (claimable_of_unique hu) ps (fun _ h => h) h0).2] at this
     exact congrArg Dir.cs this
   rw [e]
-  exact two_phase ps (·.2) (·.1) _ _ hu.1 w0S c
+  have := two_phase ps (·.2) (·.1) (fun p => gd p.2 (misStrat (indexed fl) .dest .src p.2.ty p.1.ty))
+    (fun p => gd p.2 (matStrat conv p.2.ty p.1.ty)) hu.1 w0S c
+  simp only [gd_orElse] at this
+  exact this
 
 theorem mem_pairs (nm : Field → Field → Bool) (fs ds : List Field) (f1 f2 : Field) :
     (f1, f2) ∈ pairs nm fs ds ↔ f1 ∈ fs ∧ f2 ∈ ds ∧ nm f1 f2 = true := by
@@ -614,20 +699,15 @@ theorem plan_inv (inp : Input) :
 theorem plan_plain_st (inp : Input) (hs : inp.srcNew = false) (hd : inp.destNew = false) :
     (plan inp).st = planFields inp.conv inp.fns (pairs inp.nm (plan inp).srcFields (plan inp).destFields)
       { wD := inp.manualW, wS := inp.manualR } := by
-  simp [plan, hs, hd, sideParams, ctorMatch]
+  simp [plan, hs, hd, sideParams, ctorMatch, Input.readKeys]
 
-/-- the recursive-mapping test of the generator (named types of the two packages) agrees with the
-    property's (STRUCT types of the two packages) on these two types -/
-def StructOnly (rdPkg wrPkg : Pkg) (a b : Ty) : Prop :=
-  (a.isNamedIn rdPkg = true → b.isNamedIn wrPkg = true → a.isStructNamed = true ∧ b.isStructNamed = true)
-
-theorem structPair_eq (rdPkg wrPkg : Pkg) (a b : Ty) (h : StructOnly rdPkg wrPkg a.strip.2 b.strip.2) :
+/-- the recursive-mapping test of the generator is the property's: STRUCT types of the two packages -/
+theorem structPair_eq (rdPkg wrPkg : Pkg) (a b : Ty) :
     structPair rdPkg wrPkg a b =
       if a.strip.2.isNamedIn rdPkg && b.strip.2.isNamedIn wrPkg then some (a.strip.1, b.strip.1) else none := by
   unfold structPair
   by_cases h1 : a.strip.2.isNamedIn rdPkg = true <;> by_cases h2 : b.strip.2.isNamedIn wrPkg = true
-  · have := h h1 h2
-    simp [h1, h2, this.1, this.2]
+  · simp [h1, h2, isNamedIn_struct _ _ h1, isNamedIn_struct _ _ h2]
   · simp [h1, h2]
   · simp [h1, h2]
   · simp [h1, h2]
@@ -639,22 +719,20 @@ theorem matStrat_eq (inp : Input) (a b : Ty) : matStrat inp.conv a b = specScala
   · simp only [h, Bool.false_eq_true, ↓reduceIte, Bool.not_false, Bool.true_and]
     cases rawConv inp.conv a b <;> cases mayMisConv a b <;> simp
 
-theorem pairStrat_eq_spec (inp : Input) (rdPkg wrPkg : Pkg) (a b : Ty)
-    (h1 : StructOnly rdPkg wrPkg a.strip.2 b.strip.2)
-    (h2 : ∀ e1 e2, a = .slice e1 → b = .slice e2 → StructOnly rdPkg wrPkg e1.strip.2 e2.strip.2) :
+theorem pairStrat_eq_spec (inp : Input) (rdPkg wrPkg : Pkg) (a b : Ty) :
     pairStrat inp.conv (indexed inp.fns) rdPkg wrPkg a b = specStrategy inp rdPkg wrPkg a b := by
   unfold pairStrat misStrat specStrategy firstFn
   cases hf : (indexed inp.fns).find? (fun kf => kf.2.param == a && kf.2.result == b) with
   | some kf => simp
   | none =>
     simp only [Option.map_none]
-    rw [structPair_eq rdPkg wrPkg a b h1]
+    rw [structPair_eq rdPkg wrPkg a b]
     by_cases hc : (a.strip.2.isNamedIn rdPkg && b.strip.2.isNamedIn wrPkg) = true
     · simp [hc]
     · simp only [hc, Bool.false_eq_true, ↓reduceIte]
       split
       · rename_i e1 e2
-        rw [structPair_eq rdPkg wrPkg e1 e2 (h2 e1 e2 rfl rfl)]
+        rw [structPair_eq rdPkg wrPkg e1 e2]
         by_cases hc2 : (e1.strip.2.isNamedIn rdPkg && e2.strip.2.isNamedIn wrPkg) = true
         · simp [hc2]
         · simp [hc2, matStrat_eq]
@@ -664,9 +742,11 @@ theorem pairStrat_eq_spec (inp : Input) (rdPkg wrPkg : Pkg) (a b : Ty)
 /-! ## identical types: the pair is symmetric (round trip) -/
 
 theorem named_excl (t : Ty) : (t.isNamedIn .src && t.isNamedIn .dest) = false := by
-  cases t <;> simp [Ty.isNamedIn]
-  rename_i p _ _
-  cases p <;> simp
+  unfold Ty.isNamedIn
+  split
+  · rename_i q _ _
+    cases q <;> simp
+  · rfl
 
 theorem named_excl' (t : Ty) : (t.isNamedIn .dest && t.isNamedIn .src) = false := by
   rw [Bool.and_comm]; exact named_excl t
@@ -740,9 +820,11 @@ theorem walkNested_flags (pre : List String) (d : Nat) (t : Tree) :
   | nil => simp [walkNested]
   | field fd rest ih =>
     intro f hf
-    simp only [walkNested, List.mem_cons] at hf
-    rcases hf with rfl | hf
-    · exact ⟨rfl, rfl⟩
+    simp only [walkNested, List.mem_append] at hf
+    rcases hf with hf | hf
+    · split at hf
+      · cases hf
+      · simp only [List.mem_singleton] at hf; subst hf; exact ⟨rfl, rfl⟩
     · exact ih pre d f hf
   | embed n p body rest ihb ihr =>
     intro f hf
@@ -779,8 +861,8 @@ theorem foldl_aor_flags (xs fs : List Field) (hxs : ∀ f ∈ xs, f.isGet = fals
 
 theorem sideFields_plain_flags (t : Tree) : ∀ f ∈ sideFields t false, f.isGet = false ∧ f.isSet = false := by
   intro f hf
-  simp only [sideFields, Bool.false_eq_true, ↓reduceIte, List.mem_filter] at hf
-  exact foldl_aor_flags _ [] (walkTop_flags t) (by simp) f hf.1
+  simp only [sideFields, flatten, Bool.false_eq_true, ↓reduceIte, List.mem_filter] at hf
+  exact foldl_aor_flags _ [] (walkTop_flags t) (by simp) f hf.1.1
 
 
 /-! ## existence: an applicable pair leaves its written field claimed (no uniqueness of written names needed) -/
@@ -833,7 +915,7 @@ theorem orElse_isSome_cases {α} (a b : Option α) (h : (a.orElse (fun _ => b)).
 /-- ToX: a name-matched pair with an applicable strategy whose written field is not a getter and was
     not taken by the constructor ends up claimed — by this pair or an earlier one -/
 theorem claim_exists_to (conv : List (Ty × Ty)) (fl : List Fn) (ps : List (Field × Field)) (hu : UniqueClaimable ps)
-    (w0D w0S : List String) (p : Field × Field) (hp : p ∈ ps) (hg : p.2.isGet = false) (hw : p.2.name ∉ w0D)
+    (w0D w0S : List String) (p : Field × Field) (hp : p ∈ ps) (hg : p.2.isGet = false) (hr : p.1.isSet = false) (hw : p.2.name ∉ w0D)
     (hs : (pairStrat conv (indexed fl) .src .dest p.1.ty p.2.ty).isSome = true) :
     ∃ c ∈ (planFields conv fl ps { wD := w0D, wS := w0S }).toC, c.wr.name = p.2.name := by
   have e := (planFields_toD conv fl ps hu w0D w0S).1
@@ -842,9 +924,9 @@ theorem claim_exists_to (conv : List (Ty × Ty)) (fl : List Fn) (ps : List (Fiel
     right
     rcases orElse_isSome_cases _ _ hs with h1 | h1
     · exact ⟨misToA fl p, List.mem_append_left _ (List.mem_map_of_mem hp), by
-        simp only [misToA, effClaim, hg, Bool.false_eq_true, ↓reduceIte, Option.isSome_map]; exact h1, rfl⟩
+        simp only [misToA, effClaim, hg, Bool.false_eq_true, ↓reduceIte, Option.isSome_map, gd_plain hr]; exact h1, rfl⟩
     · exact ⟨matToA conv p, List.mem_append_right _ (List.mem_map_of_mem hp), by
-        simp only [matToA, effClaim, hg, Bool.false_eq_true, ↓reduceIte, Option.isSome_map]; exact h1, rfl⟩
+        simp only [matToA, effClaim, hg, Bool.false_eq_true, ↓reduceIte, Option.isSome_map, gd_plain hr]; exact h1, rfl⟩
   rw [e] at hname
   rcases foldl_dopt_named _ ⟨w0D, []⟩ w0D (fun n hn => Or.inl hn) _ hname with h1 | ⟨c, hc, hn⟩
   · exact absurd h1 hw
@@ -854,7 +936,7 @@ theorem claim_exists_to (conv : List (Ty × Ty)) (fl : List Fn) (ps : List (Fiel
 
 /-- FromX: the mirror image -/
 theorem claim_exists_from (conv : List (Ty × Ty)) (fl : List Fn) (ps : List (Field × Field)) (hu : UniqueClaimable ps)
-    (w0D w0S : List String) (p : Field × Field) (hp : p ∈ ps) (hg : p.1.isGet = false) (hw : p.1.name ∉ w0S)
+    (w0D w0S : List String) (p : Field × Field) (hp : p ∈ ps) (hg : p.1.isGet = false) (hr : p.2.isSet = false) (hw : p.1.name ∉ w0S)
     (hs : (pairStrat conv (indexed fl) .dest .src p.2.ty p.1.ty).isSome = true) :
     ∃ c ∈ (planFields conv fl ps { wD := w0D, wS := w0S }).fromC, c.wr.name = p.1.name := by
   have e := (planFields_toD conv fl ps hu w0D w0S).2
@@ -863,9 +945,9 @@ theorem claim_exists_from (conv : List (Ty × Ty)) (fl : List Fn) (ps : List (Fi
     right
     rcases orElse_isSome_cases _ _ hs with h1 | h1
     · exact ⟨misFromA fl p, List.mem_append_left _ (List.mem_map_of_mem hp), by
-        simp only [misFromA, effClaim, hg, Bool.false_eq_true, ↓reduceIte, Option.isSome_map]; exact h1, rfl⟩
+        simp only [misFromA, effClaim, hg, Bool.false_eq_true, ↓reduceIte, Option.isSome_map, gd_plain hr]; exact h1, rfl⟩
     · exact ⟨matFromA conv p, List.mem_append_right _ (List.mem_map_of_mem hp), by
-        simp only [matFromA, effClaim, hg, Bool.false_eq_true, ↓reduceIte, Option.isSome_map]; exact h1, rfl⟩
+        simp only [matFromA, effClaim, hg, Bool.false_eq_true, ↓reduceIte, Option.isSome_map, gd_plain hr]; exact h1, rfl⟩
   rw [e] at hname
   rcases foldl_dopt_named _ ⟨w0S, []⟩ w0S (fun n hn => Or.inl hn) _ hname with h1 | ⟨c, hc, hn⟩
   · exact absurd h1 hw
@@ -964,20 +1046,22 @@ theorem two_phase_strat (ps : List (Field × Field)) (rdOf wrOf : Field × Field
 theorem claim_strat (conv : List (Ty × Ty)) (fl : List Fn) (ps : List (Field × Field)) (hu : UniqueClaimable ps)
     (w0D w0S : List String) :
     (∀ c ∈ (planFields conv fl ps { wD := w0D, wS := w0S }).toC, (c.rd, c.wr) ∈ ps ∧
-      pairStrat conv (indexed fl) .src .dest c.rd.ty c.wr.ty = some c.strat) ∧
+      pairStrat conv (indexed fl) .src .dest c.rd.ty c.wr.ty = some c.strat ∧ c.rd.isSet = false) ∧
     (∀ c ∈ (planFields conv fl ps { wD := w0D, wS := w0S }).fromC, (c.wr, c.rd) ∈ ps ∧
-      pairStrat conv (indexed fl) .dest .src c.rd.ty c.wr.ty = some c.strat) := by
+      pairStrat conv (indexed fl) .dest .src c.rd.ty c.wr.ty = some c.strat ∧ c.rd.isSet = false) := by
   have e := planFields_toD conv fl ps hu w0D w0S
   constructor
   · intro c hc
     have : c ∈ (planFields conv fl ps { wD := w0D, wS := w0S }).toD.cs := hc
     rw [e.1] at this
     obtain ⟨p, hp, _, _, s, hs, rfl⟩ := two_phase_strat ps (·.1) (·.2) _ _ w0D c this
-    exact ⟨hp, hs⟩
+    rw [gd_orElse, gd_some] at hs
+    exact ⟨hp, hs.2, hs.1⟩
   · intro c hc
     have : c ∈ (planFields conv fl ps { wD := w0D, wS := w0S }).fromD.cs := hc
     rw [e.2] at this
     obtain ⟨p, hp, _, _, s, hs, rfl⟩ := two_phase_strat ps (·.2) (·.1) _ _ w0S c this
-    exact ⟨hp, hs⟩
+    rw [gd_orElse, gd_some] at hs
+    exact ⟨hp, hs.2, hs.1⟩
 
 end ShootVerif.Mapper
